@@ -249,25 +249,38 @@ Proof.
     cbn [intercalate]. rewrite <- !app_assoc. reflexivity.
 Qed.
 
-Theorem join_columns_rows (n : nat) (rows : list (list (list Z))) :
+(* the cells of one row, each with its separator, the last with the line end *)
+Definition row_lines (r : list (list Z)) : list (list Z) :=
+  upd (length r - 1) (set_last 10) [] (map (fun t => t ++ [9]) r).
+
+Theorem join_lines_rows (n : nat) (rows : list (list (list Z))) :
   (1 <= n)%nat -> Forall (fun r => length r = n) rows ->
-  join_columns (columns n rows) (length rows) = concat (map text_line rows).
+  join_lines (columns n rows) (length rows) = concat (map row_lines rows).
 Proof.
-  intros Hn Hrows. unfold join_columns, m_sep, m_newline, m_join_nl_start. rewrite columns_length.
+  intros Hn Hrows. unfold join_lines, m_sep, m_newline, m_join_nl_start. rewrite columns_length.
   rewrite scatter_cells.
   rewrite concat_map, map_map.
   rewrite map_stride_rows.
-  - rewrite map_map.
-    rewrite concat_concat', map_map. f_equal. apply map_ext_in. intros r Hr.
+  - rewrite map_map. f_equal. apply map_ext_in. intros r Hr.
     rewrite Forall_forall in Hrows. specialize (Hrows r Hr).
     assert (Hc : map (set_last 9) (cells (repeat O n) n r) = map (fun t => t ++ [9]) r).
     { unfold cells, cell. rewrite map_map. rewrite <- Hrows.
       rewrite <- (map_seq_nth (fun t => t ++ [9]) [] r). apply map_ext. intros i.
       rewrite nth_repeat_O. cbn [repeat app]. rewrite set_last_snoc. reflexivity. }
-    rewrite Hc. rewrite <- Hrows. apply concat_upd_last. destruct r; [cbn in Hrows; lia|discriminate].
+    rewrite Hc. unfold row_lines. rewrite Hrows. reflexivity.
   - lia.
   - apply Forall_forall. intros rl Hrl. apply in_map_iff in Hrl. destruct Hrl as [r [<- _]].
     rewrite map_length. unfold cells. rewrite map_length, seq_length. reflexivity.
+Qed.
+
+Theorem join_columns_rows (n : nat) (rows : list (list (list Z))) :
+  (1 <= n)%nat -> Forall (fun r => length r = n) rows ->
+  join_columns (columns n rows) (length rows) = concat (map text_line rows).
+Proof.
+  intros Hn Hrows. unfold join_columns. rewrite join_lines_rows by assumption.
+  rewrite concat_concat', map_map. f_equal. apply map_ext_in. intros r Hr.
+  rewrite Forall_forall in Hrows. specialize (Hrows r Hr).
+  apply concat_upd_last. destruct r; [cbn in Hrows; lia|discriminate].
 Qed.
 
 (* ---------- FastQBuffer.join_fields ---------- *)
